@@ -178,7 +178,7 @@ class MMeasureJW(e1.Op):
         if kind == "1site":
             args["op"] = rng.choice(names)
             args["form"] = rng.choice(["tensor", "dict", "sites"])
-            args["sites"] = sorted(rng.sample(range(t.N), rng.randint(1, t.N)))
+            args["sites"] = rng.sample(range(t.N), rng.randint(1, t.N))      # arbitrary order: dict insertion order / sites= order are the caller's (seeded C07-c)
         elif kind == "2site":
             O = rng.choice(names)
             # P of opposite charge so that the correlator can be non-zero between equal-charge states
@@ -241,8 +241,8 @@ class MMeasureJW(e1.Op):
         elif kind == "2site":
             O, P = sp.table[ar["O"]], sp.table[ar["P"]]
             if ar["dicts"]:
-                O = {s: O for s in range(N)}
-                P = {s: P for s in range(N)}
+                O = {s: O for s in reversed(range(N))}                   # insertion order of operator dictionaries is arbitrary
+                P = {s: P for s in list(range(1, N, 2)) + list(range(0, N, 2))}
             b = ar["bonds"]
             if ar["form"] == "pattern":
                 res = mps.measure_2site(psi, O, P, psi, bonds=b)
